@@ -446,3 +446,36 @@ func jpegFlat(w, h int) []byte {
 	b = append(b, make([]byte, (2*blocks+7)/8)...)
 	return append(b, 0xFF, 0xD9)
 }
+
+// jpegHeader builds a JPEG that consists of headers only: a frame header for
+// the given component sampling factors (hv[i] = h<<4|v) and one scan header
+// listing the components scan (indices into hv).  The decoder sizes and
+// allocates its buffers from these headers before it looks at entropy data.
+func jpegHeader(w, h int, hv []byte, progressive bool, scan []int) []byte {
+	sof := byte(0xC0)
+	if progressive {
+		sof = 0xC2
+	}
+	n := len(hv)
+	b := []byte{0xFF, 0xD8, 0xFF, sof, 0, byte(8 + 3*n), 8, byte(h >> 8), byte(h), byte(w >> 8), byte(w), byte(n)}
+	for i, x := range hv {
+		b = append(b, byte(i+1), x, 0)
+	}
+	b = append(b, 0xFF, 0xDA, 0, byte(6+2*len(scan)), byte(len(scan)))
+	for _, c := range scan {
+		b = append(b, byte(c+1), 0)
+	}
+	if progressive {
+		b = append(b, 0, 0, 0) // DC scan
+	} else {
+		b = append(b, 0, 63, 0)
+	}
+	return append(b, 0xFF, 0xD9)
+}
+
+// jbig2Sized: page information claiming pw x ph and a generic region claiming rw x rh.
+func jbig2Sized(pw, ph, rw, rh int) []byte {
+	bm := bitmap.New(8, 8)
+	bm.SetPixel(2, 5, true)
+	return jbig2Page(bm, pw, ph, uint32(rw), uint32(rh))
+}
